@@ -72,7 +72,11 @@ def _main() -> int:
         colored = resolve_color_mode(ColorMode(args.color), stream=sys.stdout)
 
         with PenlogReader(path) as reader:
-            record_generator = reader.records(args.priority, reverse=args.reverse)
+            record_generator = reader.records(
+                args.priority,
+                offset=-1 if args.reverse and len(reader) > 0 else 0,
+                reverse=args.reverse,
+            )
             if args.head:
                 record_generator = islice(record_generator, args.lines)
             elif args.tail:
